@@ -161,6 +161,13 @@ func (x *Explorer) shouldInline(fn *ssa.Function, binds []Val) bool {
 	if x.statePkgs[pp] {
 		return true
 	}
+	// hand-written accessors on a request message type (GetTxMsg(), …): small, pure, and what they
+	// return must be seen through; validators stay uninterpreted outside validator mode
+	if fn.Signature.Recv() != nil && fn.Name() != "Validate" && fn.Name() != "ValidateBasic" && fn.Name() != "GetSigners" {
+		if nt := namedOf(fn.Signature.Recv().Type()); nt != nil && x.reqTypes()[nt.Obj()] {
+			return true
+		}
+	}
 	if x.validatorMode && fn.Signature.Recv() != nil && (fn.Name() == "Validate" || fn.Name() == "ValidateBasic") {
 		return true
 	}
@@ -177,6 +184,18 @@ func (x *Explorer) shouldInline(fn *ssa.Function, binds []Val) bool {
 		}
 	}
 	return false
+}
+
+func (x *Explorer) reqTypes() map[*types.TypeName]bool {
+	if x.reqTypeSet == nil {
+		x.reqTypeSet = map[*types.TypeName]bool{}
+		for _, ep := range x.M.Entries {
+			if ep.Req != nil {
+				x.reqTypeSet[ep.Req.Obj()] = true
+			}
+		}
+	}
+	return x.reqTypeSet
 }
 
 // rowArgInline: repo helpers that receive a tracked row (guards such as assertCanMintBatch) are inlined.
